@@ -32,6 +32,26 @@ def run(case):
             out[key] = bool(is_bearable(o, h))
         except Exception as e:
             out[key] = 'exc:' + type(e).__name__
+    if case.get('second'):
+        # the same object below a union of two validated hints in an item position (the first member's check is handed the
+        # assignment expression that localises the item), in both orders, in a list and as a dictionary value
+        vs2 = [U.vexp_to_python(v) for v in case['second']['vexps']]
+        hint2 = typing.Annotated[(U.hint_to_python(case['second']['metahint']),) + tuple(vs2)]
+        out['union'] = []
+        for h, o in ((list[typing.Union[hint, hint2]], [obj]), (list[typing.Union[hint2, hint]], [obj]),
+                     (dict[str, typing.Union[hint, hint2]], {'k': obj}), (tuple[int, typing.Union[hint, hint2]], (0, obj))):
+            try:
+                v = bool(is_bearable(o, h))
+            except Exception as e:
+                v = 'exc:' + type(e).__name__
+            try:
+                die_if_unbearable(o, h)
+                d = True
+            except BeartypeDoorHintViolation:
+                d = False
+            except Exception as e:
+                d = 'exc:' + type(e).__name__
+            out['union'].append([v, d])
     try:
         die_if_unbearable(obj, hint)
     except BeartypeDoorHintViolation as e:
